@@ -662,9 +662,25 @@ def unordered_iteration(tree_or_func):
 
     tainted = {}        # (scope id, name) -> True   names bound (only) to unordered values
 
+    ret_unordered = {}      # id(FunctionDef) -> set of returned-tuple positions (or 'whole') holding an unordered value
+
+    def callee_of(call):
+        fn = call.func
+        name = fn.id if isinstance(fn, ast.Name) else fn.attr if (
+            isinstance(fn, ast.Attribute) and isinstance(fn.value, ast.Name) and fn.value.id in ('self', 'cls')) else None
+        cands = [f_ for f_ in funcs if isinstance(f_, ast.FunctionDef) and f_.name == name]
+        return cands[0] if len(cands) == 1 else None
+
     def unordered(e):
         if isinstance(e, (ast.Set, ast.SetComp)):
             return True
+        if isinstance(e, tuple) and e and e[0] == 'ret':
+            fd_ = callee_of(e[1])
+            return fd_ is not None and e[2] in ret_unordered.get(id(fd_), ())
+        if isinstance(e, ast.Call) and ret_unordered:
+            fd_ = callee_of(e)
+            if fd_ is not None and 'whole' in ret_unordered.get(id(fd_), ()):
+                return True
         if isinstance(e, ast.Call):
             f = e.func
             if isinstance(f, ast.Name) and f.id in ('set', 'frozenset'):
@@ -693,6 +709,12 @@ def unordered_iteration(tree_or_func):
             for t in n.targets:
                 if isinstance(t, ast.Name):
                     assigns.setdefault((id(scope_of(n)), t.id), []).append(n.value)
+                elif isinstance(t, (ast.Tuple, ast.List)):
+                    for k_, el in enumerate(t.elts):
+                        if isinstance(el, ast.Name):
+                            # a, b = helper(...): judged through what the helper returns at that position
+                            assigns.setdefault((id(scope_of(n)), el.id), []).append(
+                                ('ret', n.value, k_) if isinstance(n.value, ast.Call) and len(n.targets) == 1 else None)
         elif isinstance(n, (ast.AugAssign, ast.AnnAssign)) and isinstance(n.target, ast.Name):
             assigns.setdefault((id(scope_of(n)), n.target.id), []).append(None)
         elif isinstance(n, (ast.For, ast.comprehension)):
@@ -726,10 +748,24 @@ def unordered_iteration(tree_or_func):
             if i < len(ps):
                 return fd, ps[i]
         return None
+    returned = {}       # id(expression) -> True for an unordered value a helper returns (judged at the helper's call sites)
     for _ in range(3):
         for k, vals in assigns.items():
             if vals and all(v is not None and unordered(v) for v in vals):
                 tainted[k] = True
+        for f_ in funcs:
+            if not isinstance(f_, ast.FunctionDef) or len([g for g in funcs if isinstance(g, ast.FunctionDef) and g.name == f_.name]) != 1:
+                continue
+            for r_ in ast.walk(f_):
+                if isinstance(r_, ast.Return) and r_.value is not None and scope_of(r_) is f_:
+                    if isinstance(r_.value, ast.Tuple):
+                        for k_, el in enumerate(r_.value.elts):
+                            if unordered(el):
+                                ret_unordered.setdefault(id(f_), set()).add(k_)
+                                returned[id(el)] = True
+                    elif unordered(r_.value):
+                        ret_unordered.setdefault(id(f_), set()).add('whole')
+                        returned[id(r_.value)] = True
         for c_ in ast.walk(root):
             if isinstance(c_, ast.Call):
                 for a_ in list(c_.args) + [kw.value for kw in c_.keywords]:
@@ -808,6 +844,8 @@ def unordered_iteration(tree_or_func):
                 continue
         if handed.get(id(n)):
             continue        # judged at the uses of the receiving parameter in the callee
+        if returned.get(id(n)):
+            continue        # judged at the call sites of the helper that returns it
         if isinstance(p, ast.Return) or isinstance(p, ast.keyword) or (isinstance(p, ast.Call) and n in p.args) \
                 or isinstance(p, (ast.For, ast.comprehension, ast.Starred, ast.Subscript, ast.Tuple, ast.List, ast.Dict,
                                   ast.Attribute, ast.Assign, ast.JoinedStr, ast.FormattedValue, ast.Yield, ast.Expr)):
